@@ -291,6 +291,17 @@ fn run_large(thorough: bool, seed: u64, out: &mut Out) {
         run_rchars(&s, &h, h.as_bytes(), out);
         run_rchar_indices(&s, &h, h.as_bytes(), out);
     }
+    // LONG strings (260..=700 bytes): byte offsets beyond 255 / 511, a few steps from either end
+    for i in 0..24 * m {
+        let s = rand_string(&mut rng, 180, 260);
+        let d = 4 + rng.below(8) as usize;
+        let pf = [0u64, 8, 4, 2, 6][i % 5];
+        let h: String = (0..d).map(|_| if rng.below(8) < pf { 'f' } else { 'b' }).collect();
+        run_chars(&s, &h, h.as_bytes(), out);
+        run_char_indices(&s, &h, h.as_bytes(), out);
+        run_rchars(&s, &h, h.as_bytes(), out);
+        run_rchar_indices(&s, &h, h.as_bytes(), out);
+    }
     for i in 0..2000 * m {
         let r = rng.next();
         let n: u32 = match i % 8 {
